@@ -64,7 +64,7 @@ def step (st : St) (l : String) : St × String :=
         (.loadWithPersonal (pending.take k) (if boolOf present then some (pending.drop k) else none))
       (clear s, stLine s)
     | none => (st, "bad-op")
-  | ["update"] => let s := DbState.step (S := Float) ri st.s (.update pending); (clear s, stLine s)
+  | ["update"] | ["update", _] => let s := DbState.step (S := Float) ri st.s (.update pending); (clear s, stLine s)
   | ["grow"] => let s := DbState.step (S := Float) ri st.s (.growDirect pending); (clear s, stLine s)
   | ["replace"] => let s := DbState.step (S := Float) ri st.s (.replaceDirect pending); (clear s, stLine s)
   | "hsearch" :: q :: rest =>
